@@ -247,14 +247,36 @@ class Engine:
         if c is True:
             return None
         neg = z3.BoolVal(True) if c is False else z3.Not(c)
-        if self._check(neg):
+        r = self._check(neg)
+        if CROSS['every'] and c is not False:
+            CROSS['n'] += 1
+            if CROSS['n'] % CROSS['every'] == 0 and len(CROSS['files']) < CROSS['cap']:
+                self._dump_query(neg, 'sat' if r else 'unsat')
+        if r:
             return self.solver.model()
         return None
+
+    def _dump_query(self, neg, verdict):
+        """write the assertion query (path condition and negated property) as SMT-LIB2 for re-decision by other solvers"""
+        import os
+        import tempfile
+        if CROSS['dir'] is None:
+            CROSS['dir'] = tempfile.mkdtemp(prefix='vfcross_')
+        self.solver.push()
+        self.solver.add(neg)
+        text = self.solver.to_smt2()
+        self.solver.pop()
+        self._model = None
+        path = os.path.join(CROSS['dir'], 'q%d_%d.smt2' % (os.getpid(), len(CROSS['files'])))
+        with open(path, 'w') as fh:
+            fh.write('(set-logic ALL)\n' + text)
+        CROSS['files'].append((path, verdict))
 
     def path_condition(self):
         return list(self.trail)
 
 
+CROSS = {'every': 0, 'cap': 40, 'files': [], 'dir': None, 'n': 0}     # cross-solver re-decision of sampled assertion queries
 ENG = Engine()
 
 
@@ -1431,8 +1453,13 @@ class RT:
             raise Unsupported("hash() of symbolic value")
         elif f in (set, frozenset) and a and not isinstance(a[0], (str, SymStr)):
             items = list(a[0])          # may be a one-shot iterator: hand the list on
-            if any(isinstance(x, SymStr) for x in items):
-                raise Unsupported("set of symbolic strings")
+            if any(is_sym(x) for x in items):
+                # symbolic elements share one hash bucket; the set's own equality tests fork through the engine
+                RT._hash_ok = True
+                try:
+                    return f(items)
+                finally:
+                    RT._hash_ok = False
             a = (items,) + tuple(a[1:])
         elif f is list and len(a) == 1 and isinstance(a[0], (set, frozenset)) and RT.set_order_hook:
             return RT.set_order_hook(list(a[0]))
@@ -1493,6 +1520,31 @@ class RT:
             RT._hash_ok = True
             try:
                 return getattr(obj, name)(*a, **kw)
+            finally:
+                RT._hash_ok = False
+        if isinstance(obj, set) and name in ('add', 'discard', 'remove') and a and (is_sym(a[0]) or any(is_sym(x) for x in obj)):
+            # a concrete element never meets symbolic ones inside the hash table: scan explicitly
+            hit = None
+            for x in list(obj):
+                if x == a[0]:            # forks when symbolic
+                    hit = x
+                    break
+            RT._hash_ok = True
+            try:
+                if name == 'add':
+                    if hit is None:
+                        obj.add(a[0])
+                    return None
+                if hit is None:
+                    if name == 'remove':
+                        raise KeyError(a[0])
+                    return None
+                # remove by identity: rebuild without the hit
+                rest = [x for x in obj if x is not hit]
+                obj.clear()
+                for x in rest:
+                    obj.add(x)
+                return None
             finally:
                 RT._hash_ok = False
         if isinstance(obj, dict) and name == 'update' and len(a) == 1 and isinstance(a[0], dict) and not kw:
